@@ -1,13 +1,12 @@
 # C17 — FUSE manager: persistent record vs live mounts across re-init / restart
 PROPS["C17"] = dict(
     props_file="Properties/C17.v",
-    harnesses=[dict(cmd="fusemgr", mod="root", model="Model.Fusemgr", quick=400, thorough=30000, shard=100,
+    harnesses=[dict(cmd="fusemgr", mod="root", model="Model.Fusemgr", quick=300, thorough=12000, shard=75,
                     require=["op.init", "op.mount", "op.check", "op.unmount", "op.close", "op.restart",
-                             "init.stage.json", "init.stage.cfgfunc", "init.stage.fs", "init.stage.run",
-                             "init.with-live-mounts", "init.after-restart-populated", "init.restore-failed",
-                             "mount.already-mounted", "mount.no-filesystem", "request.not-ready",
-                             "unmount.unknown", "unmount.recorded-not-mounted", "unmount.kernel-mounted",
-                             "result.check.0", "result.unmount.1", "result.close.1"])],
+                             "in.init.json", "in.init.cfgfunc", "in.init.fs", "in.init.run", "in.reinit",
+                             "in.init-after-restart-with-history", "in.init-script-failure", "in.request-before-init",
+                             "in.mount-failure", "in.check-failure", "in.unmount-failure",
+                             "in.kernel-mounted-mountpoint", "in.close-twice"])],
     rule="corpus of 7 hand-written histories + random histories (4..18 ops) of Init(cfg, failing stage | restore script) / Mount / Check / Unmount "
          "(each with the outcome of its backend call) / Close / manager restart over 6 mountpoints (one of them listed by the kernel mount table "
          "without being ours), 4 label sets, 4 configurations; non-trivial = >= 3 op kinds and at least one of: re-Init with live mounts, "
@@ -24,8 +23,8 @@ PROPS["C17"] = dict(
     level_text="Coq theorems over every history of Init/Mount/Check/Unmount/Close/Restart with every failure script on the FUSE-manager model "
                "(invariant by induction over fold_left step): store = live mounts + records the last Init left unrestored (and that Init reported it); "
                "owners of existing mounts survive re-Init, nothing is mounted twice, new mounts use the filesystem of the new configuration; "
-               "restart + Init re-mounts every record with its recorded labels; unknown unmount succeeds; requests before Init fail; no nil dereference "
-               "(after fix C17-fix-1). The model is run against the real fusemanager.Server (real bbolt store) on random histories every run.",
+               "restart + Init re-mounts every record (a prefix in store order when a restore fails) with its recorded labels; unknown unmount succeeds; "
+               "requests before Init fail; no nil dereference after fix C17-fix-1 (and a witness that the code as found has one). The model is run against the real fusemanager.Server (real bbolt store) on random histories every run.",
     level_note="Model (coq/Model/Fusemgr.v) is hand-written; the filesystems behind the manager are recording fakes substituted through the verif hook "
                "after the real service.NewFileSystem has run; gRPC transport, the client and process management (signals, sockets) are not exercised.",
     technique="Coq proof: invariant preserved by every op, lifted to all reachable states; correspondence by vm_compute on observed histories",
